@@ -449,11 +449,17 @@ func (t *trieRun) genCase(c *Ctx, r *RNG, id string) *TrieCase {
 			n := 130 + r.Intn(130)
 			keys := make([]string, n)
 			ids := make([]uint64, n)
+			// half of the time every non-empty value has the same width (a fixed-size value array
+			// with a presence bitmap but no position bitmap)
+			fixed := 0
+			if r.Bool() {
+				fixed = 1 + r.Intn(5)
+			}
 			for i := range keys {
 				keys[i] = fmt.Sprintf("k%03d", i)
 				for {
 					ids[i] = r.U64()
-					if s16(ids[i]) != "" {
+					if v := s16(ids[i]); v != "" && (fixed == 0 || len(v) == fixed) {
 						break
 					}
 				}
